@@ -45,6 +45,7 @@ type (
 		Forall bool
 		Vars   []QVar
 		Body   Expr
+		Setof  bool // setof x T :: p  -- the set of all x with p
 	}
 	EIte struct{ C, A, B Expr }
 )
@@ -334,7 +335,7 @@ func (l *lexer) parsePrimary() (Expr, error) {
 			return &EBool{true}, nil
 		case "false":
 			return &EBool{false}, nil
-		case "forall", "exists":
+		case "forall", "exists", "setof":
 			var vars []QVar
 			for {
 				var names []string
@@ -377,7 +378,7 @@ func (l *lexer) parsePrimary() (Expr, error) {
 			if err != nil {
 				return nil, err
 			}
-			return &EQuant{t.text == "forall", vars, body}, nil
+			return &EQuant{t.text == "forall", vars, body, t.text == "setof"}, nil
 		case "if":
 			c, err := l.parseIff()
 			if err != nil {
@@ -509,6 +510,7 @@ type Clause struct {
 }
 
 type FuncContract struct {
+	implOf   string // refinement unit: key of the method whose body is verified against an interface contract
 	Key      string // pkg.(*T).M
 	Pkg      string
 	Facets   []string
@@ -540,6 +542,17 @@ type Monitor struct {
 	Monotone      []string // guarded boolean fields that only ever go false -> true (rely condition on other threads)
 }
 
+// GhostDef: for receivers of the concrete type, the ghost field is not free but defined by the object's state
+// (the abstraction function of an implementation of an interface contract).
+type GhostDef struct {
+	Name  string
+	Pkg   string
+	Type  string // concrete struct type name (the parameter is a pointer to it)
+	Param string
+	Body  string
+	E     Expr
+}
+
 type GhostDecl struct {
 	Name    string
 	Field   bool
@@ -566,8 +579,22 @@ type Lemma struct {
 	Pkg   string
 }
 
+// WireDecl: the serialised shape of a struct type (field names, Go types and json tags), checked against the type as
+// declared in the tree by the generator itself (a structural obligation: no solver involved).
+type WireDecl struct {
+	Pkg, Type string
+	TagKey    string // struct tag key the shape is about (json unless stated: wire (T) @dynamodbav ...)
+	Props     []string
+	Label     string
+	Fields    []WireField
+	Text      string
+}
+
+type WireField struct{ Name, Type, Tag string }
+
 type ImplDecl struct {
 	Pkg, Iface, Type string
+	Separate         bool // keep the method's own contract for its callers; verify the body a second time against the interface contract
 }
 
 type Specs struct {
@@ -580,6 +607,8 @@ type Specs struct {
 	Lemmas     []*Lemma
 	Impls      []ImplDecl
 	Immutable  map[string]bool // "pkg.T.f"
+	GhostDefs  map[string][]*GhostDef
+	Wires      []*WireDecl
 	ChanInvs   map[string][]*Clause // "pkg.T" -> invariant over e (every value sent on a chan T satisfies it)
 	FuncFields map[string]string // "pkg.T.f" -> funcspec name: the field holds a function satisfying that funcspec
 	Volatile   map[string]bool // "pkg.T.f": fields accessed atomically / concurrently: exempt from frames, havoc'd by every effectful call
@@ -590,12 +619,12 @@ type Specs struct {
 
 func newSpecs() *Specs {
 	return &Specs{Funcs: map[string]*FuncContract{}, Ifaces: map[string]*FuncContract{}, FuncSpecs: map[string]*FuncContract{},
-		Ghosts: map[string]*GhostDecl{}, SpecFns: map[string]*SpecFn{}, ChanInvs: map[string][]*Clause{}, FuncFields: map[string]string{}, Immutable: map[string]bool{}, Volatile: map[string]bool{}, ObjInvs: map[string][]*Clause{}}
+		Ghosts: map[string]*GhostDecl{}, SpecFns: map[string]*SpecFn{}, GhostDefs: map[string][]*GhostDef{}, ChanInvs: map[string][]*Clause{}, FuncFields: map[string]string{}, Immutable: map[string]bool{}, Volatile: map[string]bool{}, ObjInvs: map[string][]*Clause{}}
 }
 
 var itemKeywords = map[string]bool{"func": true, "iface": true, "impl": true, "monitor": true, "funcspec": true, "ghost": true,
-	"spec": true, "axiom": true, "lemma": true, "immutable": true, "extern": true, "volatile": true, "funcfield": true, "chaninv": true}
-var clauseKeywords = map[string]bool{"facet": true, "requires": true, "ensures": true, "modifies": true, "panics-when": true,
+	"spec": true, "axiom": true, "lemma": true, "immutable": true, "extern": true, "volatile": true, "funcfield": true, "chaninv": true, "wire": true}
+var clauseKeywords = map[string]bool{"facet": true, "requires": true, "ensures": true, "modifies": true, "panics-when": true, "cbassume": true,
 	"inline": true, "trusted": true, "loop": true, "param": true, "arith": true, "invariant": true, "implements": true,
 	"guards": true, "havocs": true, "pure": true, "names": true, "results": true, "opt": true, "safety": true, "attr": true, "cond": true, "monotone": true}
 
@@ -707,11 +736,13 @@ func (sp *Specs) parseFile(path, pkgName string, lines []string) error {
 			} else if strings.HasPrefix(key, "(") {
 				key = pkgName + "." + key
 			}
-			cur = &FuncContract{Key: key, Pkg: pkgName, File: path, Params: map[string]string{}, Opts: map[string]string{}}
 			if old, dup := sp.Funcs[key]; dup {
-				return fail(ln, fmt.Errorf("duplicate contract (first in %s)", old.File))
+				// a later block for the same function adds clauses (contracts are grouped by property in the files)
+				cur = old
+			} else {
+				cur = &FuncContract{Key: key, Pkg: pkgName, File: path, Params: map[string]string{}, Opts: map[string]string{}}
+				sp.Funcs[key] = cur
 			}
-			sp.Funcs[key] = cur
 			curMon = nil
 		case "iface":
 			key := strings.ReplaceAll(r, " ", "")
@@ -728,10 +759,10 @@ func (sp *Specs) parseFile(path, pkgName string, lines []string) error {
 		case "impl":
 			// impl Iface by Type
 			parts := strings.Fields(r)
-			if len(parts) != 3 || parts[1] != "by" {
-				return fail(ln, fmt.Errorf("want: impl Iface by Type"))
+			if !(len(parts) == 3 || (len(parts) == 4 && parts[3] == "separately")) || parts[1] != "by" {
+				return fail(ln, fmt.Errorf("want: impl Iface by Type [separately]"))
 			}
-			sp.Impls = append(sp.Impls, ImplDecl{pkgName, parts[0], parts[2]})
+			sp.Impls = append(sp.Impls, ImplDecl{pkgName, parts[0], parts[2], len(parts) == 4})
 			cur, curMon = nil, nil
 		case "monitor":
 			// monitor (*T).mu
@@ -780,6 +811,29 @@ func (sp *Specs) parseFile(path, pkgName string, lines []string) error {
 				}
 				sp.Immutable[pkgName+"."+strings.TrimPrefix(it[1:i], "*")+"."+it[i+2:]] = true
 			}
+		case "wire":
+			// wire (T) [P:label] Field:gotype:"json tag" ...
+			i := strings.Index(r, ")")
+			if !strings.HasPrefix(r, "(") || i < 0 {
+				return fail(ln, fmt.Errorf("want: wire (T) [label] Field:type:\"tag\" ..."))
+			}
+			restw := strings.TrimSpace(r[i+1:])
+			tagKey := "json"
+			if strings.HasPrefix(restw, "@") {
+				tagKey = firstWord(restw)[1:]
+				restw = rest(restw)
+			}
+			props, label, body := parseLabel(restw)
+			wd := &WireDecl{Pkg: pkgName, Type: strings.TrimPrefix(r[1:i], "*"), Props: props, Label: label, Text: body, TagKey: tagKey}
+			for _, f := range strings.Fields(body) {
+				ps := strings.SplitN(f, ":", 3)
+				if len(ps) != 3 {
+					return fail(ln, fmt.Errorf("wire field %q: want Field:type:\"tag\"", f))
+				}
+				wd.Fields = append(wd.Fields, WireField{ps[0], ps[1], strings.Trim(ps[2], "\"")})
+			}
+			sp.Wires = append(sp.Wires, wd)
+			cur, curMon = nil, nil
 		case "chaninv":
 			// chaninv (T) [label] expr over e
 			i := strings.Index(r, ")")
@@ -817,12 +871,35 @@ func (sp *Specs) parseFile(path, pkgName string, lines []string) error {
 				return fail(ln, fmt.Errorf("want: ghost var|field name sort"))
 			}
 			switch parts[0] {
+			case "define":
+				// ghost define name(this *T) = expr
+				r2 := strings.TrimSpace(strings.TrimPrefix(r, "define"))
+				i := strings.Index(r2, "(")
+				j := matchParen(r2, i)
+				k := strings.Index(r2, "=")
+				if i < 0 || j < 0 || k < j {
+					return fail(ln, fmt.Errorf("want: ghost define name(this *T) = expr"))
+				}
+				pf := strings.Fields(r2[i+1 : j])
+				if len(pf) != 2 || !strings.HasPrefix(pf[1], "*") {
+					return fail(ln, fmt.Errorf("want: ghost define name(this *T) = expr"))
+				}
+				body := strings.TrimSpace(r2[k+1:])
+				ex, err := parseExpr(body)
+				if err != nil {
+					return fail(ln, err)
+				}
+				nm := strings.TrimSpace(r2[:i])
+				sp.GhostDefs[nm] = append(sp.GhostDefs[nm], &GhostDef{Name: nm, Pkg: pkgName, Type: pf[1][1:], Param: pf[0], Body: body, E: ex})
 			case "var":
 				srt := parts[2:]
 				counter := false
 				if len(srt) > 1 && srt[len(srt)-1] == "counter" {
 					counter = true
 					srt = srt[:len(srt)-1]
+				}
+				if g, dup := sp.Ghosts[parts[1]]; dup && (g.Field || g.Sort != strings.Join(srt, " ")) {
+					return fail(ln, fmt.Errorf("ghost %s declared twice with different shapes", parts[1]))
 				}
 				sp.Ghosts[parts[1]] = &GhostDecl{Name: parts[1], Sort: strings.Join(srt, " "), Counter: counter}
 			case "field":
@@ -840,6 +917,9 @@ func (sp *Specs) parseFile(path, pkgName string, lines []string) error {
 						srt = srt[:k]
 						break
 					}
+				}
+				if g, dup := sp.Ghosts[nm]; dup && (!g.Field || g.Sort != strings.Join(srt, " ") || g.Type != ty) {
+					return fail(ln, fmt.Errorf("ghost %s declared twice with different shapes", nm))
 				}
 				sp.Ghosts[nm] = &GhostDecl{Name: nm, Field: true, Type: ty, Sort: strings.Join(srt, " "), Default: def}
 			default:
@@ -898,7 +978,7 @@ func (sp *Specs) parseFile(path, pkgName string, lines []string) error {
 			for _, f := range strings.Split(r, ",") {
 				cur.Facets = append(cur.Facets, strings.TrimSpace(f))
 			}
-		case "requires", "ensures", "panics-when", "invariant":
+		case "requires", "ensures", "panics-when", "invariant", "cbassume":
 			props, label, body := parseLabel(r)
 			e, err := parseExpr(body)
 			if err != nil {
